@@ -143,7 +143,7 @@ func insertAt(r *hx.RNG, hs []p1x.Hdr, h p1x.Hdr) []p1x.Hdr {
 // carry a close signal (Connection: close, HTTP/1.0 without keep-alive,
 // close-delimited body).
 func genExchange(r *hx.RNG, o genOpt, closeOK bool) *exch {
-	e := &exch{Rd: -1}
+	e := &exch{Rd: -1, Fault: -1}
 	e.Method = methods[r.Intn(len(methods))]
 	e.Abs = r.Chance(3, 5)
 	e.PQ = genPath(r)
@@ -231,6 +231,18 @@ func genExchange(r *hx.RNG, o genOpt, closeOK bool) *exch {
 		}
 	}
 
+	// origin fault: it takes the request and hangs up before a complete head.
+	// Only where net/http's transport does not replay the request by itself
+	// (it replays GET/HEAD/OPTIONS/TRACE without a body on a reused connection)
+	// and never together with a close signal.
+	nonReplayable := e.Method == "POST" || e.Method == "PUT" || e.Method == "PATCH" || e.Method == "DELETE"
+	if nonReplayable && !closeOK && e.Rd < 0 && r.Chance(1, 10) {
+		e.Fault = []int{0, 0, 9, 17, 40}[r.Intn(5)]
+		if e.BLen > 70000 {
+			e.BLen = 70000
+		}
+	}
+
 	// response
 	e.SHdrs = genHeaders(r, resNames, 8)
 	e.SBSeed = uint64(r.Intn(1 << 30))
@@ -251,7 +263,9 @@ func genExchange(r *hx.RNG, o genOpt, closeOK bool) *exch {
 				e.SHdrs = insertAt(r, e.SHdrs, p1x.Hdr{Name: "Transfer-Encoding", Value: "chunked"})
 			}
 		}
-	case r.Chance(1, 8):
+	case r.Chance(1, 8) && (!(e.Method == "POST" || e.Method == "PUT" || e.Method == "PATCH") || r.Chance(1, 8)):
+		// (a bodiless answer to POST/PUT/PATCH is known finding C01-K4: kept rare so that
+		// the rest of such scripts is still judged)
 		e.RsF = "n"
 		e.Status = []int{204, 304}[r.Intn(2)]
 		if e.Status == 304 && r.Chance(1, 6) { // known finding C01-K3: the length of a 304 is dropped
@@ -386,6 +400,9 @@ func generate(cfg *hx.Config) []hx.Case {
 			if e.Rd >= 0 {
 				cfg.Count("origin-reads=part-of-body")
 			}
+			if e.Fault >= 0 {
+				cfg.Count("origin=fault-after-reading-request")
+			}
 			if e.Abs {
 				cfg.Count("target=absolute")
 			} else {
@@ -425,6 +442,83 @@ func generate(cfg *hx.Config) []hx.Case {
 		mode := pick(r, "seq", "seq", "pipe", fmt.Sprintf("part%d", r.Intn(1<<30)))
 		cases = append(cases, caseOf(fmt.Sprintf("early%d", k), mode, exs))
 		cfg.Count("origin=answers-before-reading-upload")
+	}
+	// origin faults at each point, every request-body shape, followed by more
+	// exchanges: the origin must have seen every request exactly once
+	kf := 0
+	for _, cut := range []int{0, 1, 17, 1000} {
+		for _, shape := range []string{"cl0", "cl", "chunked", "nobody-first", "big"} {
+			r := rng.Fork()
+			f := genExchange(r, genOpt{}, false)
+			for f.Method == "HEAD" {
+				f = genExchange(r, genOpt{}, false)
+			}
+			f.V10, f.Rd, f.Fault = false, -1, cut
+			f.Hdrs = stripConn(f.Hdrs)
+			f.Method = pick(r, "POST", "PUT", "PATCH", "DELETE")
+			switch shape {
+			case "cl0":
+				f.BLen, f.RqF = 0, "c"
+			case "cl":
+				f.BLen, f.RqF = r.Range(1, 5000), "c"
+			case "chunked":
+				f.BLen, f.RqF = r.Range(1, 5000), fmt.Sprintf("k%d", r.Intn(1<<30))
+			case "big":
+				f.BLen, f.RqF = r.Range(100000, 400000), "c"
+			default:
+				f.Method, f.BLen, f.RqF = "GET", 0, "n"
+			}
+			var exs []*exch
+			if shape != "nobody-first" && r.Bool() {
+				exs = append(exs, genExchange(r, genOpt{}, false))
+			}
+			exs = append(exs, f)
+			for j := r.Range(1, 2); j > 0; j-- {
+				e := genExchange(r, genOpt{}, false)
+				e.Fault = -1
+				exs = append(exs, e)
+			}
+			cases = append(cases, caseOf(fmt.Sprintf("fault%d", kf), pick(r, "seq", "seq", "pipe"), exs))
+			kf++
+			cfg.Count("origin=fault-after-reading-request")
+		}
+	}
+	// SIZE of the heads: one long value / many lines, both directions
+	kb := 0
+	sizes := []int{3000, 5000, 60000, 300000}
+	if cfg.Thorough() {
+		sizes = append(sizes, 1<<20)
+	}
+	for _, sz := range sizes {
+		for _, many := range []bool{false, true} {
+			for _, dir := range []string{"request", "response"} {
+				r := rng.Fork()
+				e := genExchange(r, genOpt{}, false)
+				e.Rd, e.Fault = -1, -1
+				if e.BLen > 20000 {
+					e.BLen = 20000
+				}
+				var big []p1x.Hdr
+				if many {
+					name := map[string]string{"request": "Cookie", "response": "Set-Cookie"}[dir]
+					for n := 0; n < sz; n += 1000 {
+						big = append(big, p1x.Hdr{Name: name, Value: fmt.Sprintf("c%d=%s", n, strings.Repeat("v", 990))})
+					}
+				} else {
+					big = []p1x.Hdr{{Name: "X-Big", Value: strings.Repeat("abcdefghij", sz/10)}}
+				}
+				if dir == "request" {
+					e.Hdrs = append(e.Hdrs, big...)
+				} else {
+					e.SHdrs = append(e.SHdrs, big...)
+				}
+				next := genExchange(r, genOpt{}, false)
+				next.Fault = -1
+				cases = append(cases, caseOf(fmt.Sprintf("bighead%d", kb), pick(r, "seq", "pipe"), []*exch{e, next}))
+				kb++
+				cfg.Count(fmt.Sprintf("head-size=%s-%dKB", dir, sz/1000))
+			}
+		}
 	}
 	// HTTP/1.0 clients, with and without keep-alive, against every origin framing
 	k10 := 0
@@ -592,7 +686,7 @@ func H(kv ...string) []p1x.Hdr {
 }
 
 func get(path string, hs []p1x.Hdr, status int, shs []p1x.Hdr, n int, rsf string) *exch {
-	return &exch{Rd: -1, Method: "GET", PQ: path, Hdrs: append(H("Host", "ORIGIN"), hs...), RqF: "n", BSeed: 1,
+	return &exch{Rd: -1, Fault: -1, Method: "GET", PQ: path, Hdrs: append(H("Host", "ORIGIN"), hs...), RqF: "n", BSeed: 1,
 		Status: status, SHdrs: shs, SBLen: n, SBSeed: 2, RsF: rsf}
 }
 
@@ -690,6 +784,20 @@ func corpus() []hx.Case {
 		up.Rd = k
 		add(fmt.Sprintf("origin-answers-before-reading-upload-%d", i), []string{"seq", "pipe", "part9"}[i], up, get("/after", ae, 200, nil, 7, "c"), post(10, "c"))
 	}
+	// the origin takes the request and hangs up: POST with an empty body, POST with a body, then more exchanges
+	fz := post(0, "c")
+	fz.Fault = 0
+	fb := post(3000, "c")
+	fb.Fault = 17
+	add("origin-hangs-up-after-post-content-length-0", "seq", get("/1", ae, 200, nil, 3, "c"), fz, get("/3", ae, 200, nil, 3, "c"))
+	add("origin-hangs-up-inside-head-after-post-with-body", "seq", fb, get("/2", ae, 200, nil, 3, "c"), post(10, "c"))
+	// big heads
+	add("response-head-5KB-one-value", "seq", get("/big", ae, 200, H("X-Big", strings.Repeat("0123456789", 500)), 10, "c"), get("/2", ae, 200, nil, 3, "c"))
+	var ck []p1x.Hdr
+	for n := 0; n < 60; n++ {
+		ck = append(ck, p1x.Hdr{Name: "Set-Cookie", Value: fmt.Sprintf("c%d=%s", n, strings.Repeat("v", 990))})
+	}
+	add("response-head-60KB-many-set-cookie", "seq", get("/cookies", ae, 200, ck, 10, "k3"), get("/2", ae, 200, nil, 3, "c"))
 	// three client connections in a row through one proxy, slow origin
 	m := []string{"H1", "multi.1500.300"}
 	for c := 0; c < 3; c++ {
